@@ -129,34 +129,97 @@ Qed.
 Lemma append_assoc : forall a b c : string, (a ++ b) ++ c = a ++ (b ++ c).
 Proof. induction a as [|x a IH]; intros b c; cbn; [reflexivity|rewrite IH; reflexivity]. Qed.
 
-Theorem print_parse_ymd : forall n, Z.abs n / 12 <= u64_max -> parse_ymd (print_ymd n) = Some n.
+(* the recogniser of years-and-months literals in two stages: the components, then the conversion *)
+Definition ymd_fin (ro neg : bool) (cy cm : option (option Z)) : option Z :=
+  if comp_present cy && comp_fits cy || comp_present cm && comp_fits cm then
+    if ro && negb (comp_fits cy && comp_fits cm) then None else
+    let y := if comp_fits cy then comp_val cy else 0 in
+    let m := if comp_fits cm then comp_val cm else 0 in
+    if (y <=? i64_max) && (y * 12 <=? i64_max) && (m <=? i64_max) && (y * 12 + m <=? i64_max) then
+      Some (if neg then - (y * 12 + m) else y * 12 + m)
+    else None
+  else None.
+
+Lemma parse_ymd_gen_body : forall ro (neg : bool) body,
+  parse_ymd_gen ro ((if neg then "-" else "") ++ "P" ++ body) =
+  let (cy, s3) := p_comp "Y" body in
+  let (cm, s4) := p_comp "M" s3 in
+  if String.eqb s4 "" then ymd_fin ro neg cy cm else None.
+Proof.
+  intros ro neg body.
+  assert (E : parse_ymd_gen ro ((if neg then "-" else "") ++ "P" ++ body) =
+              let (cy, s3) := p_comp "Y" body in
+              let (cm, s4) := p_comp "M" s3 in
+              if String.eqb s4 "" && (comp_present cy && comp_fits cy || comp_present cm && comp_fits cm) then
+                if ro && negb (comp_fits cy && comp_fits cm) then None else
+                let y := if comp_fits cy then comp_val cy else 0 in
+                let m := if comp_fits cm then comp_val cm else 0 in
+                if (y <=? i64_max) && (y * 12 <=? i64_max) && (m <=? i64_max) && (y * 12 + m <=? i64_max) then
+                  Some (if neg then - (y * 12 + m) else y * 12 + m)
+                else None
+              else None) by (destruct neg; reflexivity).
+  rewrite E. destruct (p_comp "Y" body) as [cy s3]. destruct (p_comp "M" s3) as [cm s4]. unfold ymd_fin.
+  destruct (String.eqb s4 ""); [|reflexivity]. cbn [andb]. reflexivity.
+Qed.
+
+(* all written components fit and the total fits i64: the written value *)
+Lemma ymd_fin_value : forall ro neg cy cm,
+  comp_present cy || comp_present cm = true -> 0 <= comp_val cy -> 0 <= comp_val cm ->
+  comp_val cy * 12 + comp_val cm <= i64_max ->
+  ymd_fin ro neg cy cm = Some (if neg then - (comp_val cy * 12 + comp_val cm) else comp_val cy * 12 + comp_val cm).
+Proof.
+  intros ro neg cy cm P Hy Hm B. unfold i64_max in B.
+  assert (Fy : comp_fits cy = true).
+  { destruct cy as [[v|]|]; try reflexivity. cbn [comp_val] in *. apply Z.leb_le. unfold u64_max. lia. }
+  assert (Fm : comp_fits cm = true).
+  { destruct cm as [[v|]|]; try reflexivity. cbn [comp_val] in *. apply Z.leb_le. unfold u64_max. lia. }
+  unfold ymd_fin. rewrite Fy, Fm, !andb_true_r, P. cbn [andb negb]. rewrite andb_false_r. cbv zeta.
+  replace ((comp_val cy <=? i64_max) && (comp_val cy * 12 <=? i64_max) && (comp_val cm <=? i64_max) &&
+           (comp_val cy * 12 + comp_val cm <=? i64_max)) with true; [reflexivity|].
+  symmetry. rewrite !andb_true_iff, !Z.leb_le. unfold i64_max. lia.
+Qed.
+
+(* after the fix: a written component that does not fit u64 makes the literal invalid *)
+Lemma ymd_fin_oversized : forall neg cy cm, comp_fits cy && comp_fits cm = false -> ymd_fin true neg cy cm = None.
+Proof.
+  intros neg cy cm F. unfold ymd_fin. rewrite F. cbn [andb negb].
+  destruct (comp_present cy && comp_fits cy || comp_present cm && comp_fits cm); reflexivity.
+Qed.
+
+(* a total beyond i64 makes the literal invalid *)
+Lemma ymd_fin_beyond_i64 : forall ro neg cy cm, 0 <= comp_val cy -> 0 <= comp_val cm ->
+  comp_fits cy = true -> comp_fits cm = true -> i64_max < comp_val cy * 12 + comp_val cm -> ymd_fin ro neg cy cm = None.
+Proof.
+  intros ro neg cy cm Hy Hm Fy Fm B. unfold ymd_fin. rewrite Fy, Fm. cbn [andb negb]. rewrite andb_false_r.
+  destruct (comp_present cy && true || comp_present cm && true); [|reflexivity]. cbv zeta.
+  replace (comp_val cy * 12 + comp_val cm <=? i64_max) with false by (symmetry; apply Z.leb_gt; exact B).
+  rewrite andb_false_r. reflexivity.
+Qed.
+
+Theorem print_parse_ymd : forall n, Z.abs n <= i64_max -> parse_ymd (print_ymd n) = Some n.
 Proof.
   intros n B. unfold print_ymd.
   assert (Ha : 0 <= Z.abs n) by lia.
   assert (Hy : 0 <= Z.abs n / 12) by (Z.div_mod_to_equations; lia).
   assert (Hm : 0 <= Z.abs n mod 12 < 12) by (Z.div_mod_to_equations; lia).
-  assert (Hm64 : Z.abs n mod 12 <= u64_max) by (unfold u64_max; lia).
-  assert (E : Z.abs n = 12 * (Z.abs n / 12) + Z.abs n mod 12) by (Z.div_mod_to_equations; lia).
+  assert (E : Z.abs n = Z.abs n / 12 * 12 + Z.abs n mod 12) by (Z.div_mod_to_equations; lia).
+  assert (S : forall body, parse_ymd ((if n <? 0 then "-" else "") ++ "P" ++ body) =
+                           let (cy, s3) := p_comp "Y" body in let (cm, s4) := p_comp "M" s3 in
+                           if String.eqb s4 "" then ymd_fin true (n <? 0) cy cm else None)
+    by (intros body; apply parse_ymd_gen_body).
   destruct (Z.ltb_spec 0 (Z.abs n / 12)) as [Py|Py]; destruct (Z.ltb_spec 0 (Z.abs n mod 12)) as [Pm|Pm].
   - (* years and months *)
-    destruct (Z.ltb_spec n 0) as [Neg|Pos]; cbn [append]; unfold parse_ymd;
-      rewrite ?append_assoc; rewrite p_comp_dec by (try lia; reflexivity);
-      rewrite p_comp_dec by (try lia; reflexivity); cbn [String.eqb comp_present comp_fits comp_val andb orb];
-      replace (Z.abs n / 12 <=? u64_max) with true by (symmetry; apply Z.leb_le; lia);
-      replace (Z.abs n mod 12 <=? u64_max) with true by (symmetry; apply Z.leb_le; lia); cbn [andb orb]; f_equal; lia.
+    rewrite S. cbn [append]. rewrite p_comp_dec by (try lia; reflexivity). rewrite p_comp_dec by (try lia; reflexivity).
+    cbn [String.eqb]. rewrite ymd_fin_value; cbn [comp_present comp_val orb]; try lia. f_equal. destruct (Z.ltb_spec n 0); lia.
   - (* years only *)
-    destruct (Z.ltb_spec n 0) as [Neg|Pos]; cbn [append]; unfold parse_ymd;
-      rewrite p_comp_dec by (try lia; reflexivity); rewrite p_comp_absent by (intros; discriminate);
-      cbn [String.eqb comp_present comp_fits comp_val andb orb];
-      replace (Z.abs n / 12 <=? u64_max) with true by (symmetry; apply Z.leb_le; lia); cbn [andb orb]; f_equal; lia.
+    rewrite S. cbn [append]. rewrite p_comp_dec by (try lia; reflexivity). rewrite p_comp_absent by (intros; discriminate).
+    cbn [String.eqb]. rewrite ymd_fin_value; cbn [comp_present comp_val orb]; try lia. f_equal. destruct (Z.ltb_spec n 0); lia.
   - (* months only: the year pattern does not match *)
     assert (NoY : forall r, p_comp "Y" (dec (Z.abs n mod 12) ++ String "M" r) = (None, dec (Z.abs n mod 12) ++ String "M" r)).
     { intros r. unfold p_comp. rewrite span_digits_dec by (try lia; reflexivity).
       destruct (digits_nonempty (Z.abs n mod 12)) as [d [t Ed]]; [lia|]. rewrite Ed. reflexivity. }
-    destruct (Z.ltb_spec n 0) as [Neg|Pos]; cbn [append]; unfold parse_ymd;
-      rewrite NoY; rewrite p_comp_dec by (try lia; reflexivity);
-      cbn [String.eqb comp_present comp_fits comp_val andb orb];
-      replace (Z.abs n mod 12 <=? u64_max) with true by (symmetry; apply Z.leb_le; lia); cbn [andb orb]; f_equal; lia.
+    rewrite S. cbn [append]. rewrite NoY. rewrite p_comp_dec by (try lia; reflexivity).
+    cbn [String.eqb]. rewrite ymd_fin_value; cbn [comp_present comp_val orb]; try lia. f_equal. destruct (Z.ltb_spec n 0); lia.
   - (* zero *)
     assert (n = 0) by lia. subst n. reflexivity.
 Qed.
